@@ -426,6 +426,13 @@ def compare(impl, ref, budget, path="/", res=None, stat=None):
             continue
         stat["leaves"] += 1
         tau = budget.tau(a.norm, b, a)
+        if not a.contours or not b.contours:
+            # an outline that collapsed under quantisation: fine if its counterpart is itself below the tolerance
+            bb = bbox(a.contours or b.contours)
+            if bb is None or max(bb[2] - bb[0], bb[3] - bb[1]) <= 2 * tau:
+                continue
+            res.append(("OUTLINE", pth, {"dist": "one side has no outline", "tau": round(tau, 3), "impl_bbox": bbox(a.contours), "ref_bbox": bbox(b.contours), "tag": a.tag}))
+            continue
         h = hausdorff(a.contours, b.contours, good=tau * 0.05)
         stat["margin"] = max(stat["margin"], min(h / tau, 50.0))
         if h > tau:
